@@ -36,14 +36,13 @@ def takeLoop : List Part → Int → List Part × List Part × Int
         -- the part has excess: take `r`, leave `amount - r`; the loop then stops
         ([⟨p.account, r⟩], ⟨p.account, p.amount - r⟩ :: ps, 0)
       else
-        let res := takeLoop ps (r - p.amount)
-        (p :: res.1, res.2.1, res.2.2)
+        (p :: (takeLoop ps (r - p.amount)).1, (takeLoop ps (r - p.amount)).2.1,
+          (takeLoop ps (r - p.amount)).2.2)
     else ([], p :: ps, r)
 
 /-- `Funding.TakeMax`: (result, remainder). -/
 def takeMax (parts : List Part) (amount : Int) : List Part × List Part :=
-  let r := takeLoop parts amount
-  (r.1, r.2.1)
+  ((takeLoop parts amount).1, (takeLoop parts amount).2.1)
 
 /-- The zero part `Take` puts in front of the result when the amount is zero and
     the funding is not empty. -/
@@ -54,8 +53,9 @@ def zeroHead (parts : List Part) (amount : Int) : List Part :=
 
 /-- `Funding.Take`: `none` = insufficient funds. -/
 def take (parts : List Part) (amount : Int) : Option (List Part × List Part) :=
-  let r := takeLoop parts amount
-  if r.2.2 = 0 then some (zeroHead parts amount ++ r.1, r.2.1) else none
+  if (takeLoop parts amount).2.2 = 0 then
+    some (zeroHead parts amount ++ (takeLoop parts amount).1, (takeLoop parts amount).2.1)
+  else none
 
 /-- `Funding.Concat` on the part lists: the last part of the left funding and the
     first part of the right one are merged when they name the same account. -/
